@@ -19,6 +19,8 @@ def tlc_generate(what, k1, k2, name):
             return json.loads(json.loads(body)), r
     raise ToolError(f"WireGen printed no cases ({r['out']})")
 
+LEVEL = {"C10": "exploration", "C13": "exploration", "C14": "exploration"}
+
 def finish(prop, tier, t0, verdict, stats, viols, gen_run, cov_extra, assumptions, cases_lookup, trace):
     for v in viols:
         payload = {"property": prop, "rule": v["rule"], "disc": v["disc"], "first_case": v.get("case"),
@@ -31,7 +33,7 @@ def finish(prop, tier, t0, verdict, stats, viols, gen_run, cov_extra, assumption
            "tlc_generator": {"module": "WireGen", "wall_s": gen_run["wall_s"]},
            "known_findings_reproduced": verdict.known_hits}
     cov.update(cov_extra)
-    write_evidence(prop, tier, "model_checking", cov, assumptions, time.time() - t0, len(verdict.violations))
+    write_evidence(prop, tier, LEVEL.get(prop, "model_checking"), cov, assumptions, time.time() - t0, len(verdict.violations))
     return verdict.exit_code()
 
 # ------------------------------------------------------------------------------------------
